@@ -1,0 +1,291 @@
+// Copyright 2020-2025 Buf Technologies, Inc.
+//
+// Licensed under the Apache License, Version 2.0 (the "License");
+// you may not use this file except in compliance with the License.
+// You may obtain a copy of the License at
+//
+//      http://www.apache.org/licenses/LICENSE-2.0
+//
+// Unless required by applicable law or agreed to in writing, software
+// distributed under the License is distributed on an "AS IS" BASIS,
+// WITHOUT WARRANTIES OR CONDITIONS OF ANY KIND, either express or implied.
+// See the License for the specific language governing permissions and
+// limitations under the License.
+
+//go:build verif
+
+package bufmodule
+
+// Contracts for the gocv verifier (see /verif/DESIGN.md). Comment-only. (author ca-A2)
+// Spec functions / ghost variables a2_*: /verif/specs/C10_workspace.spec.
+//
+// C10: how a ModuleSet is put together from the local modules of a workspace and the modules pinned in buf.lock
+// (module_set_builder.go, added_module.go). The choice among candidates with one OpaqueID (target > local > newest
+// remote) is verified in zz_verif_contracts_deps.go (selectAddedModuleForOpaqueID); this file has what is recorded by
+// the Add* calls, that Build keeps exactly one module per OpaqueID, never drops a local module for a pinned one, and
+// that a builder is used once.
+//
+// ---- records (added_module.go) ----
+//@ func newLocalAddedModule(localModule, isTarget) (r)
+//@   property C10
+//@   ensures fresh: r != nil && !old(allocated(r))
+//@   ensures records-module: r.localModule == localModule && r.isTarget == isTarget
+//@   ensures not-remote: r.remoteModuleKey == nil && len(r.remoteTargetPaths) == 0 && len(r.remoteTargetExcludePaths) == 0
+//@ func newRemoteAddedModule(remoteModuleKey, remoteTargetPaths, remoteTargetExcludePaths, isTarget) (r)
+//@   property C10
+//@   ensures fresh: r != nil && !old(allocated(r))
+//@   ensures records-key: r.remoteModuleKey == remoteModuleKey && r.isTarget == isTarget
+//@   ensures records-paths: r.remoteTargetPaths == remoteTargetPaths && r.remoteTargetExcludePaths == remoteTargetExcludePaths
+//@   ensures not-local: r.localModule == nil
+//
+// ---- options: each option writes exactly the fields it is named after ----
+//@ func newLocalModuleOptions() (r)
+//@   property C10
+//@   ensures r != nil && !old(allocated(r))
+//@   ensures no-targeting-by-default: len(r.targetPaths) == 0 && len(r.targetExcludePaths) == 0 && r.protoFileTargetPath == "" && !r.includePackageFiles
+//@   ensures no-name-by-default: r.moduleFullName == nil && r.description == ""
+//@ func newRemoteModuleOptions() (r)
+//@   property C10
+//@   ensures r != nil && !old(allocated(r))
+//@   ensures no-targeting-by-default: len(r.targetPaths) == 0 && len(r.targetExcludePaths) == 0
+//@ func LocalModuleWithTargetPaths(targetPaths, targetExcludePaths) (r)
+//@   property C10
+//@   ensures r != nil
+//@   closure 0 ensures paths-as-given: localModuleOptions.targetPaths == targetPaths && localModuleOptions.targetExcludePaths == targetExcludePaths
+//@   closure 0 ensures nothing-else: localModuleOptions.protoFileTargetPath == old(localModuleOptions.protoFileTargetPath) && localModuleOptions.includePackageFiles == old(localModuleOptions.includePackageFiles) && localModuleOptions.moduleFullName == old(localModuleOptions.moduleFullName) && localModuleOptions.description == old(localModuleOptions.description)
+//@ func LocalModuleWithProtoFileTargetPath(protoFileTargetPath, includePackageFiles) (r)
+//@   property C10
+//@   ensures r != nil
+//@   closure 0 ensures target-as-given: localModuleOptions.protoFileTargetPath == protoFileTargetPath && localModuleOptions.includePackageFiles == includePackageFiles
+//@   closure 0 ensures nothing-else: localModuleOptions.targetPaths == old(localModuleOptions.targetPaths) && localModuleOptions.targetExcludePaths == old(localModuleOptions.targetExcludePaths) && localModuleOptions.moduleFullName == old(localModuleOptions.moduleFullName)
+//@ func LocalModuleWithFullName(moduleFullName) (r)
+//@   property C10
+//@   ensures r != nil
+//@   closure 0 ensures name-as-given: localModuleOptions.moduleFullName == moduleFullName
+//@   closure 0 ensures nothing-else: localModuleOptions.targetPaths == old(localModuleOptions.targetPaths) && localModuleOptions.targetExcludePaths == old(localModuleOptions.targetExcludePaths) && localModuleOptions.protoFileTargetPath == old(localModuleOptions.protoFileTargetPath) && localModuleOptions.commitID == old(localModuleOptions.commitID)
+//@ func LocalModuleWithFullNameAndCommitID(moduleFullName, commitID) (r)
+//@   property C10
+//@   ensures r != nil
+//@   closure 0 ensures name-as-given: localModuleOptions.moduleFullName == moduleFullName && localModuleOptions.commitID == commitID
+//@   closure 0 ensures nothing-else: localModuleOptions.targetPaths == old(localModuleOptions.targetPaths) && localModuleOptions.targetExcludePaths == old(localModuleOptions.targetExcludePaths) && localModuleOptions.protoFileTargetPath == old(localModuleOptions.protoFileTargetPath)
+//@ func LocalModuleWithDescription(description) (r)
+//@   property C10
+//@   ensures r != nil
+//@   closure 0 ensures description-as-given: localModuleOptions.description == description
+//@   closure 0 ensures nothing-else: localModuleOptions.targetPaths == old(localModuleOptions.targetPaths) && localModuleOptions.targetExcludePaths == old(localModuleOptions.targetExcludePaths) && localModuleOptions.protoFileTargetPath == old(localModuleOptions.protoFileTargetPath) && localModuleOptions.moduleFullName == old(localModuleOptions.moduleFullName)
+//@ func LocalModuleWithV1Beta1OrV1BufYAMLObjectData(v1BufYAMLObjectData) (r)
+//@   property C10
+//@   ensures r != nil
+//@   closure 0 ensures data-as-given: localModuleOptions.v1BufYAMLObjectData == v1BufYAMLObjectData
+//@   closure 0 ensures nothing-else: localModuleOptions.targetPaths == old(localModuleOptions.targetPaths) && localModuleOptions.targetExcludePaths == old(localModuleOptions.targetExcludePaths) && localModuleOptions.protoFileTargetPath == old(localModuleOptions.protoFileTargetPath) && localModuleOptions.moduleFullName == old(localModuleOptions.moduleFullName)
+//@ func LocalModuleWithV1Beta1OrV1BufLockObjectData(v1BufLockObjectData) (r)
+//@   property C10
+//@   ensures r != nil
+//@   closure 0 ensures data-as-given: localModuleOptions.v1BufLockObjectData == v1BufLockObjectData
+//@   closure 0 ensures nothing-else: localModuleOptions.targetPaths == old(localModuleOptions.targetPaths) && localModuleOptions.targetExcludePaths == old(localModuleOptions.targetExcludePaths) && localModuleOptions.protoFileTargetPath == old(localModuleOptions.protoFileTargetPath) && localModuleOptions.moduleFullName == old(localModuleOptions.moduleFullName)
+//@ func RemoteModuleWithTargetPaths(targetPaths, targetExcludePaths) (r)
+//@   property C10
+//@   ensures r != nil
+//@   closure 0 ensures paths-as-given: remoteModuleOptions.targetPaths == targetPaths && remoteModuleOptions.targetExcludePaths == targetExcludePaths
+//
+// ---- one module per OpaqueID (added_module.go) ----
+// Every OpaqueID among the added modules is represented by exactly one of the added modules (distinct OpaqueIDs, in
+// increasing order: an order that does not depend on map iteration); for every LOCAL module that was added, the kept
+// record of its OpaqueID is a local one - or a remote TARGET; a pinned module (= remote, non-target: what buf.lock
+// contributes) therefore never replaces a local one. If some candidate of an OpaqueID is a target, the kept one is.
+// (The documentation of AddRemoteModule says "Modules added with AddLocalModule always take precedence", that of this
+// function "Modules that are targets are preferred, followed by Modules that are local": a remote TARGET does beat a
+// local non-target. The property speaks of pinned modules, which are never targets, hence the escape clause.)
+//@ func getUniqueSortedAddedModulesByOpaqueID(ctx, commitProvider, addedModules) (r, err)
+//@   property C10
+//@   reveal h_in
+//@   requires records-well-formed: forall i int :: 0 <= i && i < len(addedModules) ==> addedModules[i] != nil
+// slicesext.ToValuesMap drops the elements whose key is the zero value: an added module with an EMPTY OpaqueID would
+// vanish silently. AddLocalModule refuses an empty bucketID and module names are non-empty, hence the assumption.
+//@   requires opaque-ids-non-empty: forall i int :: 0 <= i && i < len(addedModules) ==> a2_aid(addedModules[i].remoteModuleKey, addedModules[i].localModule) != ""
+//@   ensures members: err == nil ==> (forall j int :: 0 <= j && j < len(r) ==> (exists i int :: 0 <= i && i < len(addedModules) && r[j] == addedModules[i]))
+//@   ensures one-per-opaque-id: err == nil ==> (forall a int, b int :: 0 <= a && a < len(r) && 0 <= b && b < len(r) && a != b ==> a2_aid(r[a].remoteModuleKey, r[a].localModule) != a2_aid(r[b].remoteModuleKey, r[b].localModule))
+//@   ensures sorted-by-opaque-id: err == nil ==> (forall a int, b int :: 0 <= a && a < b && b < len(r) ==> a2_aid(r[a].remoteModuleKey, r[a].localModule) <= a2_aid(r[b].remoteModuleKey, r[b].localModule))
+//@   ensures every-opaque-id-kept: err == nil ==> (forall i int :: 0 <= i && i < len(addedModules) ==> (exists j int :: 0 <= j && j < len(r) && a2_aid(r[j].remoteModuleKey, r[j].localModule) == a2_aid(addedModules[i].remoteModuleKey, addedModules[i].localModule)))
+//@   ensures local-over-pinned: err == nil ==> (forall i int :: 0 <= i && i < len(addedModules) && addedModules[i].localModule != nil ==> (exists j int :: 0 <= j && j < len(r) && a2_aid(r[j].remoteModuleKey, r[j].localModule) == a2_aid(addedModules[i].remoteModuleKey, addedModules[i].localModule) && (r[j].localModule != nil || r[j].isTarget)))
+//@   ensures target-kept: err == nil ==> (forall j int :: 0 <= j && j < len(r) && (exists i int :: 0 <= i && i < len(addedModules) && addedModules[i].isTarget && a2_aid(addedModules[i].remoteModuleKey, addedModules[i].localModule) == a2_aid(r[j].remoteModuleKey, r[j].localModule)) ==> r[j].isTarget)
+//@   canary ensures err != nil
+//@   loop 0 invariant members: forall j int :: 0 <= j && j < len(resultAddedModules) ==> (exists i int :: 0 <= i && i < len(addedModules) && resultAddedModules[j] == addedModules[i])
+//@   loop 0 invariant ids-visited: forall j int :: 0 <= j && j < len(resultAddedModules) ==> a2_aid(resultAddedModules[j].remoteModuleKey, resultAddedModules[j].localModule) in $visited
+//@   loop 0 invariant visited-ids-kept: forall k string :: k in $visited ==> (exists j int :: 0 <= j && j < len(resultAddedModules) && a2_aid(resultAddedModules[j].remoteModuleKey, resultAddedModules[j].localModule) == k)
+//@   loop 0 invariant distinct-ids: forall a int, b int :: 0 <= a && a < len(resultAddedModules) && 0 <= b && b < len(resultAddedModules) && a != b ==> a2_aid(resultAddedModules[a].remoteModuleKey, resultAddedModules[a].localModule) != a2_aid(resultAddedModules[b].remoteModuleKey, resultAddedModules[b].localModule)
+//@   loop 0 invariant local-kept-unless-remote-target: forall j int :: 0 <= j && j < len(resultAddedModules) && (exists i int :: 0 <= i && i < len(addedModules) && addedModules[i].localModule != nil && a2_aid(addedModules[i].remoteModuleKey, addedModules[i].localModule) == a2_aid(resultAddedModules[j].remoteModuleKey, resultAddedModules[j].localModule)) ==> resultAddedModules[j].localModule != nil || resultAddedModules[j].isTarget
+//@   loop 0 invariant target-kept: forall j int :: 0 <= j && j < len(resultAddedModules) && (exists i int :: 0 <= i && i < len(addedModules) && addedModules[i].isTarget && a2_aid(addedModules[i].remoteModuleKey, addedModules[i].localModule) == a2_aid(resultAddedModules[j].remoteModuleKey, resultAddedModules[j].localModule)) ==> resultAddedModules[j].isTarget
+//
+// ---- the module object behind an added local module (module.go, module_read_bucket.go) ----
+// The read bucket of a module keeps the targeting it is given: the --path set, the --exclude-path set (as key sets)
+// and the single-file target; targeting by paths and by a single .proto file at once is refused.
+//@ func newModuleReadBucketForModule(ctx, syncOnceValuesGetBucketWithStorageMatcherApplied, module, targetPaths, targetExcludePaths, protoFileTargetPath, includePackageFiles) (r, err)
+//@   property C10
+//@   reveal inSlice
+//@   ensures fresh: err == nil ==> r != nil && !old(allocated(r))
+//@   ensures for-module: err == nil ==> r.module == module
+//@   ensures target-paths-as-given: err == nil ==> r.targetPaths == targetPaths && r.targetPathMap != nil && (forall k string :: (k in r.targetPathMap) <==> inSlice(targetPaths, k))
+//@   ensures exclude-paths-as-given: err == nil ==> r.targetExcludePathMap != nil && (forall k string :: (k in r.targetExcludePathMap) <==> inSlice(targetExcludePaths, k))
+//@   ensures file-target-as-given: err == nil ==> r.protoFileTargetPath == protoFileTargetPath && r.includePackageFiles == includePackageFiles
+//@   ensures both-kinds-rejected: protoFileTargetPath != "" && (len(targetPaths) > 0 || len(targetExcludePaths) > 0) ==> err != nil && r == nil
+//@   ensures non-proto-file-target-rejected: protoFileTargetPath != "" && normalpath.Ext(protoFileTargetPath) != ".proto" ==> err != nil && r == nil
+//@   ensures otherwise-accepted: !(protoFileTargetPath != "" && (len(targetPaths) > 0 || len(targetExcludePaths) > 0)) && !(protoFileTargetPath != "" && normalpath.Ext(protoFileTargetPath) != ".proto") ==> err == nil
+//
+// Helpers of newModule that only build memoised getters (nothing is run, no module state is written).
+//@ func newGetDigestFuncForModuleAndDigestType(module, digestType) (r)
+//@   property C10
+//@   ensures r != nil
+//@ func newSyncOnceValueDigestTypeToGetDigestFuncForModule(module) (r)
+//@   property C10
+//@   loop 0 invariant true
+//@ func newGetModuleDepsFuncForModule(module) (r)
+//@   property C10
+//@   ensures r != nil
+//
+// newModule: the module carries the identity and the flags it is given (isTarget, isLocal) and a read bucket of its own
+// whose targeting is the NORMALIZED form of the given paths (an empty path stays empty); an invalid path is an error.
+//@ func newModule(ctx, syncOnceValuesGetBucketWithStorageMatcherApplied, bucketID, description, moduleFullName, commitID, isTarget, isLocal, getV1BufYAMLObjectData, getV1BufLockObjectData, getDepModuleKeysB5, targetPaths, targetExcludePaths, protoFileTargetPath, includePackageFiles) (r, err)
+//@   property C10
+//@   reveal inSlice
+//@   closure 0 ensures empty-stays-empty: path == "" ==> r == "" && err == nil
+//@   closure 0 ensures normalized: path != "" ==> r == first(normalpath.NormalizeAndValidate(path)) && err == second(normalpath.NormalizeAndValidate(path))
+//@   ensures fresh: err == nil ==> r != nil && !old(allocated(r))
+//@   ensures failure-gives-nil: err != nil ==> r == nil
+//@   ensures flags-as-given: err == nil ==> r.isTarget == isTarget && r.isLocal == isLocal
+//@   ensures identity-as-given: err == nil ==> r.bucketID == bucketID && r.moduleFullName == moduleFullName && r.commitID == commitID && r.description == description
+//@   ensures has-identity: err == nil ==> bucketID != "" || moduleFullName != nil
+//@   ensures remote-needs-name: !isLocal && moduleFullName == nil ==> err != nil
+//@   ensures own-read-bucket: err == nil ==> r.ModuleReadBucket != nil && typeOf(r.ModuleReadBucket) == typeId(*moduleReadBucket) && cast(*moduleReadBucket, r.ModuleReadBucket).module == r
+//@   ensures target-paths-normalized: err == nil ==> len(cast(*moduleReadBucket, r.ModuleReadBucket).targetPaths) == len(targetPaths) && (forall j int :: 0 <= j && j < len(targetPaths) ==> cast(*moduleReadBucket, r.ModuleReadBucket).targetPaths[j] == ite(targetPaths[j] == "", "", first(normalpath.NormalizeAndValidate(targetPaths[j]))) && (targetPaths[j] != "" ==> second(normalpath.NormalizeAndValidate(targetPaths[j])) == nil))
+//@   ensures target-path-set: err == nil ==> (forall k string :: (k in cast(*moduleReadBucket, r.ModuleReadBucket).targetPathMap) <==> (exists j int :: 0 <= j && j < len(targetPaths) && k == ite(targetPaths[j] == "", "", first(normalpath.NormalizeAndValidate(targetPaths[j])))))
+//@   ensures exclude-path-set: err == nil ==> (forall k string :: (k in cast(*moduleReadBucket, r.ModuleReadBucket).targetExcludePathMap) <==> (exists j int :: 0 <= j && j < len(targetExcludePaths) && k == ite(targetExcludePaths[j] == "", "", first(normalpath.NormalizeAndValidate(targetExcludePaths[j])))))
+//@   ensures file-target-normalized: err == nil ==> cast(*moduleReadBucket, r.ModuleReadBucket).protoFileTargetPath == ite(protoFileTargetPath == "", "", first(normalpath.NormalizeAndValidate(protoFileTargetPath))) && cast(*moduleReadBucket, r.ModuleReadBucket).includePackageFiles == includePackageFiles
+//@   ensures invalid-target-path-rejected: (exists j int :: 0 <= j && j < len(targetPaths) && targetPaths[j] != "" && second(normalpath.NormalizeAndValidate(targetPaths[j])) != nil) ==> err != nil
+//@   ensures invalid-exclude-path-rejected: (exists j int :: 0 <= j && j < len(targetExcludePaths) && targetExcludePaths[j] != "" && second(normalpath.NormalizeAndValidate(targetExcludePaths[j])) != nil) ==> err != nil
+//@   ensures both-kinds-rejected: protoFileTargetPath != "" && (len(targetPaths) > 0 || len(targetExcludePaths) > 0) ==> err != nil
+//
+// ---- the builder (module_set_builder.go) ----
+// ghost.a2_built is the builder's buildCalled latch (single-cell model of the atomic.Bool, see C10_workspace.spec).
+//@ func newModuleSetBuilder(ctx, logger, moduleDataProvider, commitProvider) (r)
+//@   property C10
+//@   ensures fresh: r != nil && !old(allocated(r))
+//@   ensures empty: len(r.addedModules) == 0 && len(r.errs) == 0
+//@   ensures providers-as-given: r.moduleDataProvider == moduleDataProvider && r.commitProvider == commitProvider && r.ctx == ctx
+//@ func (b *moduleSetBuilder) addError(err) (r)
+//@   property C10
+//@   modifies heap moduleSetBuilder.errs
+//@   ensures r == b
+//@   ensures error-recorded: len(b.errs) == old(len(b.errs)) + 1 && b.errs[len(b.errs) - 1] == err && (forall j int :: 0 <= j && j < old(len(b.errs)) ==> b.errs[j] == old(b.errs)[j])
+//@   ensures other-builders-untouched: forall o *moduleSetBuilder :: o != b ==> o.errs == old(o.errs)
+//
+// AddRemoteModule: after Build nothing is recorded any more (an error is); a non-target with path filters is refused
+// (error recorded, no record); otherwise exactly ONE record is appended, which holds the given key and target flag, the
+// path filters the options set, and is not local; earlier records and errors are kept. A target is never refused.
+// (`calls option ...`: the options are function values; that they write only the options record they are handed is an
+// assumption of the model, each option constructor's literal is verified above to write the fields it is named after.)
+//@ func (b *moduleSetBuilder) AddRemoteModule(moduleKey, isTarget, options) (r)
+//@   property C10
+//@   modifies heap moduleSetBuilder.addedModules, heap moduleSetBuilder.errs, heap remoteModuleOptions.targetPaths, heap remoteModuleOptions.targetExcludePaths
+//@   calls option modifies heap remoteModuleOptions.*
+//@   ensures same-builder: r == b
+//@   ensures after-build-rejected: ghost.a2_built ==> b.addedModules == old(b.addedModules) && len(b.errs) == old(len(b.errs)) + 1 && b.errs[len(b.errs) - 1] == errBuildAlreadyCalled
+//@   ensures one-record-or-one-error: !ghost.a2_built ==> (len(b.addedModules) == old(len(b.addedModules)) + 1 && b.errs == old(b.errs)) || (b.addedModules == old(b.addedModules) && len(b.errs) == old(len(b.errs)) + 1 && !isTarget)
+//@   ensures earlier-records-kept: forall j int :: 0 <= j && j < old(len(b.addedModules)) ==> j < len(b.addedModules) && b.addedModules[j] == old(b.addedModules)[j]
+//@   ensures earlier-errors-kept: forall j int :: 0 <= j && j < old(len(b.errs)) ==> j < len(b.errs) && b.errs[j] == old(b.errs)[j]
+//@   ensures record-as-given: !ghost.a2_built && len(b.addedModules) == old(len(b.addedModules)) + 1 ==> b.addedModules[len(b.addedModules) - 1] != nil && b.addedModules[len(b.addedModules) - 1].remoteModuleKey == moduleKey && b.addedModules[len(b.addedModules) - 1].isTarget == isTarget && b.addedModules[len(b.addedModules) - 1].localModule == nil
+//@   ensures target-never-refused: !ghost.a2_built && isTarget ==> len(b.addedModules) == old(len(b.addedModules)) + 1
+//@   ensures no-options-no-filters: !ghost.a2_built && len(options) == 0 ==> len(b.addedModules) == old(len(b.addedModules)) + 1 && len(b.addedModules[len(b.addedModules) - 1].remoteTargetPaths) == 0 && len(b.addedModules[len(b.addedModules) - 1].remoteTargetExcludePaths) == 0
+//@   ensures other-builders-untouched: forall o *moduleSetBuilder :: o != b ==> o.addedModules == old(o.addedModules) && o.errs == old(o.errs)
+//@   loop 0 invariant remoteModuleOptions != nil
+//@   loop 0 invariant len(options) == 0 ==> len(remoteModuleOptions.targetPaths) == 0 && len(remoteModuleOptions.targetExcludePaths) == 0
+//@   assert before "b.addedModules = append(" non-target-has-no-paths: isTarget || (len(remoteModuleOptions.targetPaths) == 0 && len(remoteModuleOptions.targetExcludePaths) == 0)
+//
+// (paths.go) wraps the bucket getter into a memoised getter of the bucket restricted to module files; nothing runs here.
+//@ func getSyncOnceValuesGetBucketWithStorageMatcherApplied(ctx, getBucket) (r)
+//@   property C10
+//@   ensures r != nil
+//
+// AddLocalModule: a bucketID is required; after Build nothing is recorded; path / single-file targeting of a
+// non-target module and both kinds of targeting at once are refused (an error is recorded and NO module); otherwise
+// exactly ONE record is appended: it is local, carries the given target flag, and its module object has that same flag,
+// the bucketID, and the targeting the options asked for (normalized). Earlier records and errors are kept.
+//@ func (b *moduleSetBuilder) AddLocalModule(bucket, bucketID, isTarget, options) (r)
+//@   property C10
+//@   modifies heap moduleSetBuilder.addedModules, heap moduleSetBuilder.errs, heap localModuleOptions.moduleFullName, heap localModuleOptions.commitID, heap localModuleOptions.description, heap localModuleOptions.targetPaths, heap localModuleOptions.targetExcludePaths, heap localModuleOptions.protoFileTargetPath, heap localModuleOptions.includePackageFiles, heap localModuleOptions.v1BufYAMLObjectData, heap localModuleOptions.v1BufLockObjectData
+//@   calls option modifies heap localModuleOptions.*
+//@   ensures same-builder: r == b
+//@   ensures after-build-rejected: ghost.a2_built ==> b.addedModules == old(b.addedModules) && len(b.errs) == old(len(b.errs)) + 1 && b.errs[len(b.errs) - 1] == errBuildAlreadyCalled
+//@   ensures bucket-id-required: !ghost.a2_built && bucketID == "" ==> b.addedModules == old(b.addedModules) && len(b.errs) == old(len(b.errs)) + 1
+//@   ensures one-record-or-one-error: !ghost.a2_built ==> (len(b.addedModules) == old(len(b.addedModules)) + 1 && b.errs == old(b.errs)) || (b.addedModules == old(b.addedModules) && len(b.errs) == old(len(b.errs)) + 1)
+//@   ensures earlier-records-kept: forall j int :: 0 <= j && j < old(len(b.addedModules)) ==> j < len(b.addedModules) && b.addedModules[j] == old(b.addedModules)[j]
+//@   ensures earlier-errors-kept: forall j int :: 0 <= j && j < old(len(b.errs)) ==> j < len(b.errs) && b.errs[j] == old(b.errs)[j]
+//@   ensures record-as-given: !ghost.a2_built && len(b.addedModules) == old(len(b.addedModules)) + 1 ==> b.addedModules[len(b.addedModules) - 1] != nil && b.addedModules[len(b.addedModules) - 1].isTarget == isTarget && b.addedModules[len(b.addedModules) - 1].remoteModuleKey == nil && b.addedModules[len(b.addedModules) - 1].localModule != nil && cast(*module, b.addedModules[len(b.addedModules) - 1].localModule).isTarget == isTarget && cast(*module, b.addedModules[len(b.addedModules) - 1].localModule).isLocal && cast(*module, b.addedModules[len(b.addedModules) - 1].localModule).bucketID == bucketID
+//@   ensures no-options-untargeted: !ghost.a2_built && len(options) == 0 && len(b.addedModules) == old(len(b.addedModules)) + 1 ==> len(cast(*moduleReadBucket, cast(*module, b.addedModules[len(b.addedModules) - 1].localModule).ModuleReadBucket).targetPathMap) == 0 && len(cast(*moduleReadBucket, cast(*module, b.addedModules[len(b.addedModules) - 1].localModule).ModuleReadBucket).targetExcludePathMap) == 0 && cast(*moduleReadBucket, cast(*module, b.addedModules[len(b.addedModules) - 1].localModule).ModuleReadBucket).protoFileTargetPath == ""
+//@   ensures other-builders-untouched: forall o *moduleSetBuilder :: o != b ==> o.addedModules == old(o.addedModules) && o.errs == old(o.errs)
+//@   loop 0 invariant localModuleOptions != nil
+//@   loop 0 invariant len(options) == 0 ==> len(localModuleOptions.targetPaths) == 0 && len(localModuleOptions.targetExcludePaths) == 0 && localModuleOptions.protoFileTargetPath == "" && localModuleOptions.moduleFullName == nil
+//@   closure 0 ensures r == bucket && err == nil
+//@   assert before "b.addedModules = append(" module-flags: module != nil && module.isTarget == isTarget && module.isLocal && module.bucketID == bucketID && module.moduleFullName == localModuleOptions.moduleFullName && module.description == localModuleOptions.description
+//@   assert before "b.addedModules = append(" non-target-has-no-targeting: isTarget || (len(localModuleOptions.targetPaths) == 0 && len(localModuleOptions.targetExcludePaths) == 0 && localModuleOptions.protoFileTargetPath == "")
+//@   assert before "b.addedModules = append(" targeting-from-options: (forall k string :: (k in cast(*moduleReadBucket, module.ModuleReadBucket).targetPathMap) <==> (exists j int :: 0 <= j && j < len(localModuleOptions.targetPaths) && k == ite(localModuleOptions.targetPaths[j] == "", "", first(normalpath.NormalizeAndValidate(localModuleOptions.targetPaths[j]))))) && (forall k string :: (k in cast(*moduleReadBucket, module.ModuleReadBucket).targetExcludePathMap) <==> (exists j int :: 0 <= j && j < len(localModuleOptions.targetExcludePaths) && k == ite(localModuleOptions.targetExcludePaths[j] == "", "", first(normalpath.NormalizeAndValidate(localModuleOptions.targetExcludePaths[j])))))
+//@   assert before "b.addedModules = append(" file-target-from-options: cast(*moduleReadBucket, module.ModuleReadBucket).protoFileTargetPath == ite(localModuleOptions.protoFileTargetPath == "", "", first(normalpath.NormalizeAndValidate(localModuleOptions.protoFileTargetPath))) && cast(*moduleReadBucket, module.ModuleReadBucket).includePackageFiles == localModuleOptions.includePackageFiles
+//
+// slicesext.Count: how many elements satisfy f; what Build needs is "zero iff none does".
+//@ func github.com/bufbuild/buf/private/pkg/slicesext.Count(s, f) (r)
+//@   property C10
+//@   callback pure f
+//@   ensures bounds: 0 <= r && r <= len(s)
+//@   ensures zero-iff-none: r == 0 <==> (forall i int :: 0 <= i && i < len(s) ==> !f(s[i]))
+//@   loop 0 invariant 0 <= count && count <= $i
+//@   loop 0 invariant count == 0 <==> (forall j int :: 0 <= j && j < $i ==> !f(s[j]))
+//
+// ToModule: a local record yields the very module that was added (never a copy, never a remote fetch); a remote record
+// yields a new non-local module named and pinned by the key, with the record's target flag and path filters.
+//@ func (a *addedModule) ToModule(ctx, moduleDataProvider, commitProvider) (r, err)
+//@   property C10
+//@   ensures local-is-returned-as-is: a.localModule != nil ==> r == a.localModule && err == nil
+//@   ensures remote-module-from-key: a.localModule == nil && err == nil ==> r != nil && !old(allocated(r)) && typeOf(r) == typeId(*module) && !cast(*module, r).isLocal && cast(*module, r).isTarget == a.isTarget && cast(*module, r).moduleFullName == a.remoteModuleKey.FullName() && cast(*module, r).commitID == a.remoteModuleKey.CommitID() && cast(*module, r).bucketID == ""
+//@   ensures remote-path-filters: a.localModule == nil && err == nil ==> (forall k string :: (k in cast(*moduleReadBucket, cast(*module, r).ModuleReadBucket).targetPathMap) <==> (exists j int :: 0 <= j && j < len(a.remoteTargetPaths) && k == ite(a.remoteTargetPaths[j] == "", "", first(normalpath.NormalizeAndValidate(a.remoteTargetPaths[j]))))) && (forall k string :: (k in cast(*moduleReadBucket, cast(*module, r).ModuleReadBucket).targetExcludePathMap) <==> (exists j int :: 0 <= j && j < len(a.remoteTargetExcludePaths) && k == ite(a.remoteTargetExcludePaths[j] == "", "", first(normalpath.NormalizeAndValidate(a.remoteTargetExcludePaths[j])))))
+//@   ensures records-untouched: forall o *addedModule :: o.localModule == old(o.localModule) && o.remoteModuleKey == old(o.remoteModuleKey) && o.isTarget == old(o.isTarget)
+//
+// Build: usable once; errors of the Add* calls are reported; a non-empty builder needs a target; on success the set
+// consists of the modules of the records that getUniqueSortedAddedModulesByOpaqueID kept, in that order: a local
+// record contributes the very module that was added.
+//@ func (b *moduleSetBuilder) Build() (r, err)
+//@   property C10
+//@   modifies heap, ghost.a2_built
+//@   requires records-well-formed: forall i int :: 0 <= i && i < len(b.addedModules) ==> b.addedModules[i] != nil
+//@   requires recorded-errors-non-nil: forall i int :: 0 <= i && i < len(b.errs) ==> b.errs[i] != nil
+//@   requires opaque-ids-non-empty: forall i int :: 0 <= i && i < len(b.addedModules) ==> a2_aid(b.addedModules[i].remoteModuleKey, b.addedModules[i].localModule) != ""
+//@   ensures latched: ghost.a2_built
+//@   ensures second-use-rejected: old(ghost.a2_built) ==> r == nil && err == errBuildAlreadyCalled
+//@   ensures add-errors-reported: !old(ghost.a2_built) && old(len(b.errs)) > 0 ==> err != nil
+//@   ensures no-target-rejected: !old(ghost.a2_built) && old(len(b.errs)) == 0 && old(len(b.addedModules)) > 0 && (forall i int :: 0 <= i && i < old(len(b.addedModules)) ==> !old(b.addedModules[i].isTarget)) ==> err != nil
+//@   closure 0 ensures r <==> m.isTarget
+//@   closure 1 ensures local-as-is: addedModule.localModule != nil ==> r == addedModule.localModule && err == nil
+//@   closure 1 ensures remote-from-key: addedModule.localModule == nil && err == nil ==> typeOf(r) == typeId(*module) && !cast(*module, r).isLocal && cast(*module, r).isTarget == addedModule.isTarget && cast(*module, r).moduleFullName == addedModule.remoteModuleKey.FullName()
+// The deferred profiling call goes through a function VALUE (whole-heap havoc at exit in the model), so what the set
+// holds is stated at the final `return newModuleSet(modules)` (newModuleSet#post[modules-as-given]: the set holds
+// exactly `modules`, and its #post[opaque-ids-unique] gives one module per OpaqueID).
+// for every local module that was added, the record kept for its OpaqueID contributes the very module object of a local
+// record (itself or an earlier local one of that OpaqueID) - unless it is a remote TARGET: never a pinned module
+//@   assert before "return newModuleSet(modules)" local-over-pinned: forall i int :: 0 <= i && i < old(len(b.addedModules)) && old(b.addedModules[i].localModule) != nil ==> (exists j int :: 0 <= j && j < len(addedModules) && a2_aid(addedModules[j].remoteModuleKey, addedModules[j].localModule) == a2_aid(old(b.addedModules[i].remoteModuleKey), old(b.addedModules[i].localModule)) && ((addedModules[j].localModule != nil && modules[j] == addedModules[j].localModule) || (addedModules[j].localModule == nil && addedModules[j].isTarget)))
+// nothing but added modules: a member of the set is an added local module or was created here for an added remote key
+//@   assert before "return newModuleSet(modules)" kept-records-were-added: forall j int :: 0 <= j && j < len(addedModules) ==> (exists i int :: 0 <= i && i < old(len(b.addedModules)) && addedModules[j] == old(b.addedModules[i]))
+//@   assert before "return newModuleSet(modules)" records-unchanged: forall o *addedModule :: o.localModule == old(o.localModule) && o.remoteModuleKey == old(o.remoteModuleKey) && o.isTarget == old(o.isTarget)
+//@   assert before "return newModuleSet(modules)" remote-modules-from-their-keys: forall j int :: 0 <= j && j < len(addedModules) && addedModules[j].localModule == nil ==> typeOf(modules[j]) == typeId(*module) && cast(*module, modules[j]).moduleFullName == addedModules[j].remoteModuleKey.FullName() && cast(*module, modules[j]).isTarget == addedModules[j].isTarget && !cast(*module, modules[j]).isLocal
+// every added OpaqueID is represented
+//@   assert before "return newModuleSet(modules)" every-opaque-id-kept: len(modules) == len(addedModules) && (forall i int :: 0 <= i && i < old(len(b.addedModules)) ==> (exists j int :: 0 <= j && j < len(addedModules) && a2_aid(addedModules[j].remoteModuleKey, addedModules[j].localModule) == a2_aid(old(b.addedModules[i].remoteModuleKey), old(b.addedModules[i].localModule))))
+//@   assert before "return newModuleSet(modules)" one-module-per-kept-record: len(modules) == len(addedModules) && (forall j int :: 0 <= j && j < len(addedModules) && addedModules[j].localModule != nil ==> modules[j] == addedModules[j].localModule)
+//
+// Commit keys (commit_key.go): a key records what it is given; an empty registry / nil commit ID / unknown digest type
+// is refused. (Used by the digest resolver of the v1 buf.lock reader in bufworkspace.)
+//@ func newCommitKey(registry, commitID, digestType) (r, err)
+//@   property C10
+//@   ensures err == nil ==> r != nil && !old(allocated(r)) && r.registry == registry && r.commitID == commitID && r.digestType == digestType
+//@   ensures err != nil ==> r == nil
+//@   ensures empty-registry-rejected: registry == "" ==> err != nil
+//@ func NewCommitKey(registry, commitID, digestType) (r, err)
+//@   property C10
+//@   ensures empty-registry-rejected: registry == "" ==> err != nil
